@@ -177,6 +177,12 @@ def _roundtrips(data, fp, ctx, phase=""):
     records_ok("to_list_of_dicts", [dict(x) for x in lod])
     back = ctx.call("ListOfDicts.to_data_frame", lod.to_data_frame)
     _compare_back("ListOfDicts", back, src, kinds, has_value)
+    if n >= 2:
+        # the same records with the keys of every other item in reverse insertion order: a record is a mapping, the
+        # back-conversion must file each value under its key
+        mixed = di.ListOfDicts([dict(reversed(list(x.items()))) if j % 2 else dict(x) for j, x in enumerate(lod)])
+        back = ctx.call("ListOfDicts.to_data_frame (mixed key order)", mixed.to_data_frame)
+        _compare_back("ListOfDicts with items in mixed key order", back, src, kinds, has_value)
 
     # ---- JSON ----
     text = ctx.call("to_json", data.to_json)
@@ -186,8 +192,12 @@ def _roundtrips(data, fp, ctx, phase=""):
         raise Violation("to_json did not produce valid JSON", exc=str(e))
     records_ok("to_json", parsed)
     dtypes = {cn: ("datetime64[D]" if kinds[cn] == "d" else "datetime64[us]") for cn in names if kinds[cn] in ("d", "t")}
-    back = ctx.call("from_json", lambda: di.DataFrame.from_json(text, dtypes=dtypes))
+    back = ctx.call("from_json", lambda: di.DataFrame.from_json(text, dtypes=dtypes) if dtypes else di.DataFrame.from_json(text))
     _compare_back("JSON", back, src, kinds, has_value)
+    if n >= 2:
+        text2 = json.dumps([dict(reversed(list(o.items()))) if j % 2 else o for j, o in enumerate(parsed)], ensure_ascii=False)
+        back = ctx.call("from_json (mixed key order)", lambda: di.DataFrame.from_json(text2, dtypes=dtypes) if dtypes else di.DataFrame.from_json(text2))
+        _compare_back("JSON with objects in mixed key order", back, src, kinds, has_value)
     # the documented dtypes= argument naming every column whose dtype is one of the standard ones
     full = dict(dtypes)
     full.update({cn: {"s": str, "b": bool, "f": float, "i": int}[kinds[cn]] for cn in names if kinds[cn] in ("s", "b", "f", "i")})
@@ -207,6 +217,10 @@ def _roundtrips(data, fp, ctx, phase=""):
                             want=missing[cn])
     back = ctx.call("from_pandas", lambda: di.DataFrame.from_pandas(pdf))
     _compare_back("pandas", back, src, kinds, has_value)
+    if n >= 2:
+        # the same pandas frame with its rows reversed (index labels no longer equal positions): rows are rows
+        back = ctx.call("from_pandas (rows reversed)", lambda: di.DataFrame.from_pandas(pdf.iloc[::-1]))
+        _compare_back("pandas with reversed rows", back, {k: (t, c[::-1]) for k, (t, c) in src.items()}, kinds, has_value)
 
     # ---- Arrow ----
     tab = ctx.call("to_arrow", data.to_arrow)
